@@ -9,6 +9,15 @@ Local Open Scope N_scope.
    (the code's guard, taken from the source by Extracted.v, is start <= d < end),
    and carries exactly the entry's criteria (closed under implication).  Trusted
    edges come from [ps_trusted], the local file's table only. *)
+(* turn a conjunction of boolean comparisons (whatever operators the source uses)
+   into propositions *)
+Ltac guard_fact H :=
+  first [apply N.eqb_eq in H | apply Z.leb_le in H | apply Z.ltb_lt in H | apply Z.eqb_eq in H].
+Ltac guard_facts H :=
+  repeat match type of H with
+         | (_ && _)%bool = true => let H2 := fresh "G" in apply andb_prop in H; destruct H as [H H2]; guard_fact H2
+         end; guard_fact H.
+
 Theorem C06_grant_edges :
   forall t s e, In e (all_edges t s) -> is_grant (fe_origin e) = true ->
   exists pi p, nth_error (ps_publishers s) pi = Some p /\
@@ -24,12 +33,8 @@ Proof.
   intros t s e He Hg. apply grant_edges_are_publisher_edges in He; [|exact Hg].
   destruct (publisher_edge_spec t s e He) as [pi [p [Hp [Hf [Ht H]]]]].
   exists pi, p. repeat split; auto. destruct H as [[imp [ai [w [Ho [Hw [G Hc]]]]]]|[tr [Ho [Hin [G Hc]]]]].
-  - left. exists imp, ai, w. unfold wildcard_guard in G.
-    apply andb_prop in G. destruct G as [G G3]. apply andb_prop in G. destruct G as [G1 G2].
-    apply N.eqb_eq in G1. apply Z.leb_le in G2. apply Z.ltb_lt in G3. repeat split; auto. lia.
-  - right. exists tr. unfold trusted_guard in G.
-    apply andb_prop in G. destruct G as [G G3]. apply andb_prop in G. destruct G as [G1 G2].
-    apply N.eqb_eq in G1. apply Z.leb_le in G2. apply Z.ltb_lt in G3. repeat split; auto. lia.
+  - left. exists imp, ai, w. unfold wildcard_guard in G. guard_facts G. repeat split; auto; lia.
+  - right. exists tr. unfold trusted_guard in G. guard_facts G. repeat split; auto; lia.
 Qed.
 
 (* no other edge kind is a grant: what certifies through a grant is a grant edge *)
